@@ -162,8 +162,8 @@ Proof. vm_compute. split; reflexivity. Qed.
 From Coq Require Import ZArith.
 From GoGit Require Import Gen.C31 Proofs.C31Leaf.
 Theorem C31_is_binary_tied : forall s,
-  convert_Stat_IsBinary (Z.of_N (s_nul s)) (Z.of_N (s_lonecr s)) (Z.of_N (s_lonelf s))
-                        (Z.of_N (s_crlf s)) (Z.of_N (s_print s)) (Z.of_N (s_nonprint s))
+  convert_Stat_IsBinary (Z.of_N (s_nul s)) (Z.of_N (s_lonecr s))
+                        (Z.of_N (s_print s)) (Z.of_N (s_nonprint s))
   = is_binary s.
 Proof. exact is_binary_gen_spec. Qed.
 Print Assumptions C31_is_binary_tied.
